@@ -423,7 +423,8 @@ def _fuzz_one(exe, target, flavour, seconds, seed, workdir, use_seeds):
                 shutil.copy(os.path.join(committed, f), corpus)
     max_len = 1 << 20 if target == "dbdir" else (1 << 17 if target == "table" else 1 << 16)
     cmd = [exe, "-max_total_time=%d" % int(seconds), "-seed=%d" % (seed or 1), "-timeout=10", "-rss_limit_mb=4096", "-malloc_limit_mb=2048",
-           "-max_len=%d" % max_len, "-artifact_prefix=%s-" % corpus, "-print_final_stats=1", corpus]
+           "-max_len=%d" % max_len, "-artifact_prefix=%s-" % corpus, "-print_final_stats=1",
+           "-dict=%s" % os.path.join(VERIF, "corpus", "C18", "dict.txt"), corpus]
     return subprocess.Popen(cmd, stdout=open(corpus + ".log", "w"), stderr=subprocess.STDOUT, env=env), corpus
 
 
